@@ -5,6 +5,7 @@ use crate::vm::continuation::Continuation;
 use crate::vm::gc;
 use crate::vm::gc::State;
 use crate::vm::lambda::Lambda;
+use crate::vm::opcode::OpCode;
 use crate::vm::vcell::VCell;
 use log::trace;
 use num::ToPrimitive;
@@ -550,9 +551,16 @@ impl Heap {
     ///
     /// Iterate the lambda byte code and mark any value that contains a reference type
     pub fn mark_lambda(&mut self, lambda: &Lambda) {
-        // Mark every bytecode cell
+        // Mark every bytecode cell, except the operand of a jump: that is an offset into this
+        // bytecode which is encoded like a reference, and marking it keeps whatever garbage
+        // cell happens to have the offset as its index - and all that hangs off it - alive
+        // for as long as the procedure is.
+        let mut jump_operand = false;
         for it in &lambda.bc {
-            self.mark_vcell(it)
+            if !jump_operand {
+                self.mark_vcell(it);
+            }
+            jump_operand = matches!(it, VCell::OpCode(OpCode::Jmp | OpCode::Jnt));
         }
 
         // Mark every argument (symbol)
